@@ -863,6 +863,11 @@ func (te *TemplateEngine) cloneDocument(source *Document) *Document {
 	// 复制图片ID计数器
 	doc.nextImageID = source.nextImageID
 
+	// 复制脚注/尾注和编号管理器（副本与源文档互不影响），使克隆文档上后续添加的
+	// 脚注、尾注和列表延续源文档的编号并保留已有定义
+	doc.footnoteManager = source.footnoteManager.clone()
+	doc.numberingManager = source.numberingManager.clone()
+
 	return doc
 }
 
